@@ -75,10 +75,13 @@ class Register(GlobalVar):
 
     def il_init_var(self):
         if self.get_name() == "pc":
+            init = "RzILOpPure *pc = U32(pkt->pkt_addr);"
             if self.access == RegisterAccessType.W:
                 # PC is written. Like any other written register it needs its operand.
                 return self.il_isa_to_assoc_name()
-            return "RzILOpPure *pc = U32(pkt->pkt_addr);"
+            elif self.access == RegisterAccessType.RW:
+                return self.il_isa_to_assoc_name() + "\n" + init
+            return init
         # Registers which are only written do not need their own RzILOpPure.
         if self.access == RegisterAccessType.W or self.access == RegisterAccessType.PW:
             return self.il_isa_to_assoc_name()
